@@ -277,6 +277,20 @@ class NativeSpec:
         self.old_mode = 0
         self.reachable_all_pre = []
 
+    def _origin(self, v):
+        """The entry-state object a pre-state twin was copied from (v itself when it is not a twin)."""
+        if isinstance(v, (str, int, float, bool, type(None))):
+            return v
+        if not hasattr(self, "_twin2orig"):
+            self._twin2orig = {}
+            # memo: id(original) -> twin (deepcopy's memo also keeps the originals alive in memo[id(memo)])
+            keep = self.memo.get(id(self.memo), [])
+            for orig in keep:
+                t = self.memo.get(id(orig))
+                if t is not None:
+                    self._twin2orig[id(t)] = orig
+        return self._twin2orig.get(id(v), v)
+
     def _is_twin(self, now, then):
         return self.memo.get(id(now)) is then
 
@@ -321,7 +335,13 @@ class NativeSpec:
         if n.id in self.g:
             return self.g[n.id]
         import builtins
-        return getattr(builtins, n.id)
+        if hasattr(builtins, n.id):
+            return getattr(builtins, n.id)
+        # contracts may name any class of the repository, whether or not the function's module imports it
+        try:
+            return _import_class(Repo.get().class_by_name(n.id))
+        except Exception:
+            return getattr(builtins, n.id)
 
     def n_Attribute(self, n, env):
         return getattr(self.ev(n.value, env), n.attr)
@@ -379,6 +399,13 @@ class NativeSpec:
         left = self.ev(n.left, env)
         for op, rn in zip(n.ops, n.comparators):
             right = self.ev(rn, env)
+            if isinstance(op, (ast.Is, ast.IsNot)):
+                # identity across old() and the current state: a pre-state twin stands for the object it was copied from
+                a, b = self._origin(left), self._origin(right)
+                if (a is b) != isinstance(op, ast.Is):
+                    return False
+                left = right
+                continue
             f = {ast.Eq: o.eq, ast.NotEq: o.ne, ast.Lt: o.lt, ast.LtE: o.le, ast.Gt: o.gt, ast.GtE: o.ge, ast.Is: o.is_,
                  ast.IsNot: o.is_not, ast.In: lambda a, b: a in b, ast.NotIn: lambda a, b: a not in b}[type(op)]
             if not f(left, right):
